@@ -10,6 +10,7 @@ import (
 	"io"
 	"log"
 	"net"
+	"os"
 	"strconv"
 	"sync"
 	"sync/atomic"
@@ -57,16 +58,49 @@ type endpoint struct {
 	conn net.Conn
 	recv []byte
 	end  string // "" while open, "eof", "err"
+	slow bool   // a slow consumer: small receive buffer, 16 KiB reads with a short sleep after each
+}
+
+// burstByte is the i-th byte of the large final burst (position dependent, so loss, duplication and
+// reordering all show).
+func burstByte(i int, seed int) byte { return byte(i%251) + byte(i/65521) + byte(seed) }
+
+func burstChunk(from, n, seed int) []byte {
+	b := make([]byte, n)
+	for i := range b {
+		b[i] = burstByte(from+i, seed)
+	}
+	return b
+}
+
+// burstCheck: how many bytes of the burst arrived and whether they are exactly its first `len(got)` bytes.
+func burstCheck(got []byte, seed int) (int, bool) {
+	for i, x := range got {
+		if x != burstByte(i, seed) {
+			return len(got), false
+		}
+	}
+	return len(got), true
 }
 
 func (e *endpoint) attach(c net.Conn) {
 	e.mu.Lock()
 	e.conn = c
 	e.mu.Unlock()
+	slow := e.slow
+	if tc, ok := c.(*net.TCPConn); ok && slow {
+		tc.SetReadBuffer(32 * 1024)
+	}
 	go func() {
 		buf := make([]byte, 64*1024)
+		if slow {
+			buf = make([]byte, 16*1024)
+		}
 		for {
 			n, err := c.Read(buf)
+			if slow {
+				time.Sleep(150 * time.Microsecond)
+			}
 			e.mu.Lock()
 			e.recv = append(e.recv, buf[:n]...)
 			if err != nil {
@@ -137,11 +171,13 @@ type upstream struct {
 	exited   chan struct{}
 }
 
-func newUpstream() (*upstream, error) { return newUpstreamFunc(nil) }
+func newUpstream() (*upstream, error) { return newUpstreamFunc(nil, false) }
+
+func newUpstreamSlow(slow bool) (*upstream, error) { return newUpstreamFunc(nil, slow) }
 
 // newUpstreamFunc: `greet` (optional) runs on the accepted connection before the recorder is attached; if it
 // returns false the connection does not count as accepted.
-func newUpstreamFunc(greet func(net.Conn, *endpoint) bool) (*upstream, error) {
+func newUpstreamFunc(greet func(net.Conn, *endpoint) bool, slow bool) (*upstream, error) {
 	if len(upPool) < upPoolSize {
 		l, err := listenRetry()
 		if err != nil {
@@ -162,6 +198,7 @@ func newUpstreamFunc(greet func(net.Conn, *endpoint) bool) (*upstream, error) {
 	}
 	l.SetDeadline(time.Time{})
 	u := &upstream{l: l, accepted: make(chan struct{}), exited: make(chan struct{})}
+	u.ep.slow = slow
 	go func() {
 		defer close(u.exited)
 		c, err := l.Accept()
@@ -227,6 +264,12 @@ type tunIn struct {
 	Order     string   `json:"order"`    // client | upstream | halfclose
 	Reply     []string `json:"reply"`    // halfclose: what the upstream sends after it has seen EOF
 	Paced     bool     `json:"paced"`    // tcp transport: 1 ms between client writes
+	DialMs    int      `json:"dial_ms,omitempty"`   // configured DialTimeout in ms (0: generous default)
+	PauseMs   int      `json:"pause_ms,omitempty"`  // the client pauses this long after its first `hold` segments
+	Hold      int      `json:"hold,omitempty"`      // number of leading client segments sent before the pause
+	Burst     int      `json:"burst,omitempty"`     // a final client burst of this many bytes (pattern burstByte)
+	BurstSeed int      `json:"burst_seed,omitempty"`
+	SlowUp    bool     `json:"slowup,omitempty"`    // the upstream is a slow consumer
 }
 
 type tunOut struct {
@@ -234,6 +277,8 @@ type tunOut struct {
 	Cl       string `json:"cl"` // everything the client received
 	Accepted bool   `json:"accepted"`
 	UpEnd    string `json:"upend"`
+	BurstGot int    `json:"burst_got"` // bytes received behind the expected head (PROXY line + segments)
+	BurstOK  bool   `json:"burst_ok"`  // ... and they are exactly the first burst_got bytes of the burst
 	Lookup   string `json:"lookup"` // what the proxy's Lookup call returned: none (not called) | miss | hit
 	Served   bool   `json:"served"` // ServeTCP returned / client connection ended within the bound
 	Raddr    string `json:"raddr"`  // in.RemoteAddr().String()
@@ -266,6 +311,14 @@ func helloComplete(s []byte) bool {
 }
 
 func runTunnel(raw json.RawMessage) (interface{}, error) {
+	if os.Getenv("C09_TIMING") != "" {
+		t0 := time.Now()
+		defer func() {
+			if d := time.Since(t0); d > 100*time.Millisecond {
+				fmt.Fprintf(os.Stderr, "slow case %v: %.300s\n", d, string(raw))
+			}
+		}()
+	}
 	var in tunIn
 	if err := json.Unmarshal(raw, &in); err != nil {
 		return nil, err
@@ -297,7 +350,40 @@ func runTunnel(raw json.RawMessage) (interface{}, error) {
 		return nil, errors.New("bad order")
 	}
 
-	up, err := newUpstream()
+	if in.Burst < 0 || in.Burst > 64<<20 || in.PauseMs < 0 || in.PauseMs > 2000 || in.DialMs < 0 || in.Hold < 0 {
+		return nil, errors.New("burst/pause/dial out of range")
+	}
+	// the burst goes out after the scripted segments, before the terminal event
+	var burstChunks [][]byte
+	for off := 0; off < in.Burst; off += 256 * 1024 {
+		n := in.Burst - off
+		if n > 256*1024 {
+			n = 256 * 1024
+		}
+		burstChunks = append(burstChunks, burstChunk(off, n, in.BurstSeed))
+	}
+	if len(burstChunks) > 0 {
+		var nevs []rEv
+		k := 0
+		for k < len(evs) && evs[k].kind == 0 {
+			nevs = append(nevs, evs[k])
+			k++
+		}
+		for _, b := range burstChunks {
+			nevs = append(nevs, rEv{0, b})
+		}
+		evs = append(nevs, evs[k:]...)
+	}
+	hold := -1
+	if in.PauseMs > 0 && in.Hold < len(cchunks) {
+		hold = in.Hold
+	}
+	dialT := waitT
+	if in.DialMs > 0 {
+		dialT = time.Duration(in.DialMs) * time.Millisecond
+	}
+
+	up, err := newUpstreamSlow(in.SlowUp)
 	if err != nil {
 		return nil, err
 	}
@@ -365,11 +451,11 @@ func runTunnel(raw json.RawMessage) (interface{}, error) {
 	var h tcp.Handler
 	switch in.Path {
 	case "tcp":
-		h = &tcp.Proxy{Lookup: lookup, DialTimeout: waitT}
+		h = &tcp.Proxy{Lookup: lookup, DialTimeout: dialT}
 	case "dyn":
-		h = &tcp.DynamicProxy{Lookup: lookup, DialTimeout: waitT}
+		h = &tcp.DynamicProxy{Lookup: lookup, DialTimeout: dialT}
 	case "sni":
-		h = &tcp.SNIProxy{Lookup: lookup, DialTimeout: waitT}
+		h = &tcp.SNIProxy{Lookup: lookup, DialTimeout: dialT}
 	}
 
 	// client side
@@ -381,6 +467,7 @@ func runTunnel(raw json.RawMessage) (interface{}, error) {
 	clientRecv := func() int { return cep.n() }
 	if in.Transport == "script" {
 		sc = newScriptConn(evs, laddr, raddr)
+		sc.hold = hold
 		clientRecv = sc.nWritten
 		go func() {
 			defer close(done)
@@ -399,8 +486,15 @@ func runTunnel(raw json.RawMessage) (interface{}, error) {
 		raddr = cc.LocalAddr().(*net.TCPAddr)
 		cep.attach(cc)
 		go func() {
-			writeSegs(cc, cchunks, in.Paced)
-			close(cwritten)
+			defer close(cwritten)
+			if hold >= 0 {
+				writeSegs(cc, cchunks[:hold], in.Paced)
+				time.Sleep(time.Duration(in.PauseMs) * time.Millisecond)
+				writeSegs(cc, cchunks[hold:], in.Paced)
+			} else {
+				writeSegs(cc, cchunks, in.Paced)
+			}
+			writeSegs(cc, burstChunks, false)
 		}()
 	}
 	expectTunnel := in.Routed && (in.Path != "sni" || helloComplete(cstream))
@@ -420,18 +514,29 @@ func runTunnel(raw json.RawMessage) (interface{}, error) {
 	// has come back for more (so its writes to the upstream are done); nothing sent earlier can be cut off
 	// by what follows. (Real client sockets finish by FIN, which follows the data.) Upstream→client: the
 	// client has counted the bytes.
-	if expectTunnel {
-		waitUntil(waitT, done, up.isAccepted)
-	}
 	if sc == nil {
 		select {
 		case <-cwritten:
-		case <-time.After(waitT):
+		case <-time.After(4 * waitT):
 		}
 	}
-	if sc != nil {
+	if sc != nil && hold >= 0 {
 		waitUntil(waitT, done, sc.drained)
-	} else if in.Order == "upstream" && expectTunnel {
+	}
+	if sc != nil {
+		if hold >= 0 {
+			// the client is silent for a while (longer than the configured dial timeout), then goes on
+			time.Sleep(time.Duration(in.PauseMs) * time.Millisecond)
+			sc.unhold()
+		}
+		if expectTunnel {
+			waitUntil(waitT, done, up.isAccepted)
+		}
+		waitUntil(4*waitT, done, func() bool { return sc.drained() && sc.nPulled() >= len(cstream)+in.Burst })
+	} else if expectTunnel {
+		waitUntil(waitT, done, up.isAccepted)
+	}
+	if sc == nil && in.Order == "upstream" && expectTunnel {
 		// (corpus/replay only) real client socket and the upstream finishing first: count bytes
 		expUp := len(cstream)
 		if in.Pxy {
@@ -511,7 +616,18 @@ func runTunnel(raw json.RawMessage) (interface{}, error) {
 	} else {
 		clb, _ = cep.snapshot()
 	}
+	// split what the upstream received into the head (PROXY line + scripted segments) and the burst behind it
+	headLen := len(cstream)
+	if in.Pxy {
+		headLen += len(fmt.Sprintf("PROXY TCP4 %s %s %d %d\r\n", raddr.IP, laddr.IP, raddr.Port, laddr.Port))
+	}
+	if in.Burst == 0 || headLen > len(upb) {
+		headLen = len(upb)
+	}
+	bgot, bok := burstCheck(upb[headLen:], in.BurstSeed)
+	upb = upb[:headLen]
 	return tunOut{Up: hx2(upb), Cl: hx2(clb), Accepted: up.isAccepted(), UpEnd: upend, Served: served,
+		BurstGot: bgot, BurstOK: bok,
 		Lookup: []string{"none", "miss", "hit"}[lookupState.Load()],
 		Raddr: raddr.String(), Laddr: laddr.String()}, nil
 }
@@ -677,6 +793,22 @@ func genTunnelWith(r *hx.Rand, order string) tunIn {
 	if order == "halfclose" {
 		in.Reply = hexes(cut(r, patBytes(r, r.Range(1, 40)), r.Intn(2)))
 	}
+	switch {
+	case order == "client" && r.Chance(1, 100):
+		// the client finishes first with a large final burst while the upstream consumes slowly
+		in.Burst = r.Range(2<<20, 8<<20)
+		in.BurstSeed = r.Intn(256)
+		in.SlowUp = true
+		if in.Csegs[len(in.Csegs)-1].E == "err" {
+			in.Csegs[len(in.Csegs)-1].E = "eof"
+		}
+	case len(segs) > 0 && r.Chance(1, 50):
+		// a small configured dial timeout, and a client that goes on sending long after it
+		in.DialMs = r.Range(50, 80)
+		in.PauseMs = 3*in.DialMs + 20
+		in.Hold = r.Intn(len(segs))
+		in.Pxy = !r.Chance(1, 3)
+	}
 	return in
 }
 
@@ -707,6 +839,32 @@ func tunnelCorpus() []interface{} {
 			out = append(out, tunIn{Path: p, Transport: tr, Routed: true, Host: "a.example", Raddr: a4, Laddr: l4, DynRoute: "port",
 				Csegs: cs, Usegs: []string{}, Order: "halfclose", Reply: []string{hx2([]byte("REPLY"))}, Paced: true})
 		}
+	}
+	// late client data: configured dial timeout 60 ms, PROXY option, the client goes on after 200 ms
+	for _, p := range []string{"tcp", "sni", "dyn"} {
+		cs := []segJ{{C: hx2([]byte("early"))}, {C: hx2([]byte("late-1"))}, {C: hx2([]byte("late-2"))}, {E: "eof"}}
+		hold := 1
+		if p == "sni" {
+			cs = append([]segJ{{C: hx2(hello)}}, cs...)
+			hold = 2
+		}
+		for _, tr := range []string{"script", "tcp"} {
+			out = append(out, tunIn{Path: p, Transport: tr, Routed: true, Pxy: true, Host: "a.example", Raddr: a4, Laddr: l4, DynRoute: "port",
+				Csegs: cs, Usegs: []string{hx2([]byte("srv"))}, Order: "client", Reply: []string{}, DialMs: 60, PauseMs: 200, Hold: hold})
+		}
+	}
+	// the client finishes first with a large final burst, the upstream consumes slowly
+	for i, p := range []string{"tcp", "tcp", "sni", "dyn"} {
+		cs := []segJ{{C: hx2([]byte("head"))}, {E: "eof"}}
+		if p == "sni" {
+			cs = append([]segJ{{C: hx2(hello)}}, cs...)
+		}
+		tr := "script"
+		if i == 1 {
+			tr = "tcp"
+		}
+		out = append(out, tunIn{Path: p, Transport: tr, Routed: true, Pxy: i%2 == 0, Host: "a.example", Raddr: a4, Laddr: l4, DynRoute: "port",
+			Csegs: cs, Usegs: []string{}, Order: "client", Reply: []string{}, Burst: (3 + i) << 20, BurstSeed: 7 * i, SlowUp: true})
 	}
 	// PROXY line, IPv6 client
 	out = append(out, tunIn{Path: "tcp", Transport: "script", Routed: true, Pxy: true, Raddr: addrJ{IP: "2001:db8::1", Port: 9}, Laddr: addrJ{IP: "::1", Port: 443},
